@@ -26,7 +26,7 @@ func init() {
 			"error text is not inspected; loader failures other than not-found must surface even under ignore missing",
 			"documented tolerances (undefined variables and attributes print as empty, ignore missing) must keep working and are checked as the converse",
 		},
-		quick: 6000, thorough: 200000, minQuick: 2500, minThorough: 80000,
+		quick: 12000, thorough: 300000, minQuick: 5000, minThorough: 100000,
 	}})
 }
 
